@@ -82,6 +82,9 @@ func generate(r *simkit.Rand, prop, tier string) *simkit.Plan {
 		w[6] += 1
 	}
 	n := r.Range(10, 80)
+	if tier == "thorough" && r.Chance(0.3) {
+		n = r.Range(80, 300) // thorough tier: a third of the runs are long
+	}
 	for i := 0; i < n; i++ {
 		st := simkit.Step{Op: ops[r.Weighted(w)], T: r.Intn(nAddr)}
 		switch st.Op {
